@@ -59,8 +59,8 @@ class C19(Prop):
     not_covered = ["data races: runtime check only (ThreadSanitizer on the runs made), no proof",
                    "kernel scheduling fairness; poll and IOCP back ends (not compiled on Linux); the poll back end mixes "
                    "1-byte wake-ups with 8-byte completions in one pipe (read from the source, not executable here)",
-                   "heart_beat_flag (src/backend.c) is a plain int written by the timer thread and read by the backend: "
-                   "a C11 data race by reading; the backend loop is not run under ThreadSanitizer here",
+                   "heart_beat_flag: the race is shown with the real timer callback against the real call_heart_beat() "
+                   "(open known finding C19-heart-beat-flag-race); the full backend() loop is not run under ThreadSanitizer",
                    "eventfd counter overflow after 2^64-2 un-waited doorbell writes",
                    "several writers blocked at once on a BLOCK_WRITER queue are exercised only by the multi-thread runs"]
 
@@ -77,6 +77,12 @@ class C19(Prop):
                                               with_common=False)
         return self.tsan_exe
 
+    def hb(self):
+        if getattr(self, "hb_exe", None) is None:
+            self.hb_exe = E.compile_harness("c19hb", [os.path.join(E.VERIF, "harness/c19/c19hb.c")], kind="tsan",
+                                            with_common=False, exclude_objs=("backend.c.o",))
+        return self.hb_exe
+
     def _run(self, exe, cases, rundir, env):
         os.makedirs(rundir, exist_ok=True)
         p = E.run([exe, "--scratch", rundir], input=E.cases_text(cases), env=env, timeout=3000, cwd=rundir)
@@ -87,16 +93,31 @@ class C19(Prop):
         return res
 
     def run_impl(self, ctx, cases):
-        plain = [c for c in cases if "#tsan" not in c.lines]
+        plain = [c for c in cases if "#tsan" not in c.lines and "#tsan-hb" not in c.lines]
         ts = [c for c in cases if "#tsan" in c.lines]
+        hb = [c for c in cases if "#tsan-hb" in c.lines]
         res = {}
+        tsan_env = {"TSAN_OPTIONS": "halt_on_error=0:exitcode=66:report_thread_leaks=0:second_deadlock_stack=1"}
+        if hb:
+            res.update(self._run(self.hb(), hb, ctx.rundir, tsan_env))
         if plain:
             res.update(self._run(self.exe, plain, ctx.rundir,
                                  {"ASAN_OPTIONS": "detect_leaks=0:abort_on_error=0", "UBSAN_OPTIONS": "print_stacktrace=0"}))
         if ts:
-            res.update(self._run(self.tsan(), ts, ctx.rundir,
-                                 {"TSAN_OPTIONS": "halt_on_error=0:exitcode=66:report_thread_leaks=0:second_deadlock_stack=1"}))
+            res.update(self._run(self.tsan(), ts, ctx.rundir, tsan_env))
+        self._raw.update(res)
         return res
+
+    def canon(self, lines):
+        # ThreadSanitizer reports are judged (run_judge sees them), they are not part of the model/implementation diff
+        return [l.rstrip() for l in lines if l.strip() != "" and not l.startswith("race ")]
+
+    def run_judge(self, ctx, cases, impl):
+        js = []
+        for c in cases:
+            raw = self._raw.get(c.id) if impl.get(c.id) == self.canon(self._raw.get(c.id, [])) else None
+            js.append(E.Case(c.id, c.lines + ["--"] + (raw if raw is not None else impl.get(c.id, ["crash missing"]))))
+        return E.nvdrive(self.id, "judge", E.cases_text(js))
 
     # ---- generators ------------------------------------------------------
     def boundary(self):
